@@ -152,11 +152,11 @@ def _empty_ok(seq):
 FN_FLAGSETS = ['E', 'DE', '', 'EI', 'DEW', 'EU', 'DEC']
 GL_FLAGSETS = ['E', 'GE', 'GDE', 'GXE', 'LE', 'GZE', 'GEO', 'GDEW', 'GXDEO', '', 'GLDEI']
 LIST_POOL_FN = ['*', 'a*', '.*', '*.a', '!*.a', '[!a]*', '@(a|b)', '!(a)', '\\!a', '!a', '-a', '-?a', '!(a)b', '*|!a*',
-                '{a,b}*', 'a|b', '!?(a)*']
+                '{a,b}*', 'a|b', '!?(a)*', 'a\\x7cb', '\\x7ba,b\\x7d*', 'a\\174\\x2a']
 LIST_POOL_GL = ['*', 'a/*', '**', '**/.a', '!*.a', '*/', '!(a)', '!a*', '.*', '*.a', '**/a|!b', '{a,.a}/*', '-a', '!**/?a',
-                '-*/a']
-LIST_FLAGS_FN = ['NE', 'NME', 'NEA', 'NES', 'NEB', 'E', 'NDE', 'NESB', 'NEAS', 'ES', 'EB']
-LIST_FLAGS_GL = ['GNE', 'GNME', 'GNEA', 'GNES', 'GNEB', 'GE', 'GNDE', 'GNEO', 'GNEAO', 'GES', 'GEB', 'GXNE']
+                '-*/a', 'a\\x7cb/*', '\\x7ba,b\\x7d']
+LIST_FLAGS_FN = ['NE', 'NME', 'NEA', 'NES', 'NEB', 'E', 'NDE', 'NESB', 'NEAS', 'ES', 'EB', 'ERS', 'ERB', 'NERSB']
+LIST_FLAGS_GL = ['GNE', 'GNME', 'GNEA', 'GNES', 'GNEB', 'GE', 'GNDE', 'GNEO', 'GNEAO', 'GES', 'GEB', 'GXNE', 'GERS', 'GERB']
 
 
 def plan(tier, seed):
